@@ -37,7 +37,9 @@ def _env_table():
 
 # imports executed as they are (pure helpers / not reached symbolically)
 PASS_IMPORTS = {"__future__", "abc", "enum", "typing", "errno", "os", "string", "sys", "argparse", "configargparse",
-                "functools", "ipaddress", "collections", "itertools"}
+                "functools", "ipaddress", "collections", "itertools",
+                # pure algorithms that touch their arguments only through rich comparisons / dunder methods (proxies fork there)
+                "bisect", "heapq", "operator"}
 
 ENV_TABLE = None
 
